@@ -251,4 +251,55 @@ func runC14(a *A) {
 		a.Info("analytic_state_implementations", len(impls))
 	})
 	a.Rule("locks/guarded-by", 5, func() { a.lockRules("stream", "analyticFieldEngine") })
+	a.Rule("ownmap/placeholder-private", 1, func() { a.rulePlaceholderPrivate() })
+}
+
+// rulePlaceholderPrivate: the placeholder columns through which an analytic call's value is handed to
+// its wrapper expression (__analytic_self__, __analytic_N__) are engine-internal. They may only be
+// written into a map created by the function that writes them (a per-field, per-event private copy):
+// written into a row that other fields of the same event also read, a whole-row call evaluated later
+// (had_changed(x, *), changed_cols(p, x, *)) sees them as extra columns of the row.
+func (a *A) rulePlaceholderPrivate() int {
+	tokN := a.Func("types", "AnalyticSelfTokenN")
+	n := 0
+	for _, fn := range a.ModFuncs {
+		if fn.Pkg == nil || fn.Pkg != a.Pkg("stream") {
+			continue
+		}
+		allInstrs(fn, func(in ssa.Instruction) {
+			mu, ok := in.(*ssa.MapUpdate)
+			if !ok {
+				return
+			}
+			isPlaceholder := false
+			for _, l := range phiLeaves(mu.Key) {
+				if c, ok := l.(*ssa.Call); ok && c.Call.StaticCallee() == tokN {
+					isPlaceholder = true
+				}
+				if strings.HasPrefix(constText(l), "__analytic") {
+					isPlaceholder = true
+				}
+				if bo, ok := l.(*ssa.BinOp); ok && strings.HasPrefix(constText(bo.X), "__analytic") {
+					isPlaceholder = true
+				}
+			}
+			if !isPlaceholder {
+				return
+			}
+			n++
+			construct := fname(fn) + "#placeholder-target"
+			private := true
+			var other string
+			for _, l := range phiLeaves(mu.Map) {
+				if _, ok := l.(*ssa.MakeMap); !ok {
+					private = false
+					other = TermOf(l, nil).String()
+				}
+			}
+			a.Check(private, construct, mu.Pos(),
+				"placeholder columns are written into a map created in this function",
+				"a placeholder column is written into "+other+", a map this function did not create: other fields evaluated for the same event (whole-row calls with a * argument, WHERE) see it as a column of the row")
+		})
+	}
+	return n
 }
